@@ -269,7 +269,7 @@ static QClass classify_query(const OtGroup &G, int v, size_t N, const std::vecto
   return Q_WELLFORMED;
 }
 
-VF_ENUM(sender_aborts_on_bad_queries, 552, 2208) { // 276 (variant, line role, mutation) combinations x 2 (thorough 8) repetitions
+VF_ENUM(sender_aborts_on_bad_queries, 574, 2296) { // 287 (variant, line role, mutation) combinations x 2 (thorough 8) repetitions
   size_t idx = ctx.c.raw();
   const std::vector<Combo> &C = combos();
   const Combo &cb = C[idx % C.size()]; size_t rep = idx / C.size();
